@@ -10,7 +10,7 @@ Main results
                                  docstring, literal value; no name twice            (all lists of the subset)
 * `Builder.documented_eq_bound_partial`  nothing missing, nothing invented, nothing twice     (corollary)
 * `Builder.kind_eq`, `kind_eq_iff`   kind from decorators = class of the bound object, for ALL decorator lists
-* `Builder.exception_eq_partial` exception-ness through the bases, for the generated tables and unqualified base names
+* `Builder.exception_eq`         exception-ness through the bases, full for the generated tables
                                  (`exception_tables_agree`: no name on which the tables disagree)
 * `Builder.docstring_eq`         docstring = cleandoc of the interpreter's `__doc__`; coroutine flag
 * `Builder.value_eq`, `infer_type_sound`, `infer_elements_sound`   inferred type = `type(value).__name__`
@@ -1530,26 +1530,19 @@ theorem exception_tables_agree (n : Name) :
   · have := h1 n (by simpa using hp); simp_all
   · rfl
 
-/-- the external base names of a class are written without the `builtins.` prefix -/
-def unqualifiedBases (c : Ctx) (bases : List Base) : Bool :=
-  (extNames c.env (c.env.length + 1) bases).all (fun n => stripBuiltins n == n)
-
-/-- with the generated tables the exception clause of `Subset.inSubset` holds for every base list whose external
-names are written unqualified -/
+/-- with the generated tables the exception clause of `Subset.inSubset` holds for every base list -/
 theorem basesOk_generated (c : Ctx) (hp : c.pdExc = Tables.Exceptions.pydoctor) (hy : c.pyExc = Tables.Exceptions.builtins)
-    (bases : List Base) (hq : unqualifiedBases c bases = true) : basesOk c bases = true := by
-  simp only [unqualifiedBases, List.all_eq_true, beq_iff_eq] at hq
+    (bases : List Base) : basesOk c bases = true := by
   simp only [basesOk, hp, hy, List.all_eq_true, beq_iff_eq]
-  intro x hx
-  rw [hq x hx]
-  exact exception_tables_agree x
+  intro x _
+  exact exception_tables_agree (stripBuiltins x)
 
-/-- **exception_eq_partial** — with the tables generated from this tree and this interpreter, a class is documented as
-an exception exactly when CPython makes it a subclass of `BaseException`, for every base list whose external names are
-written without `builtins.` (full statement false: `exception_eq_qualified_counterexample`). -/
-theorem exception_eq_partial (c : Ctx) (hp : c.pdExc = Tables.Exceptions.pydoctor) (hy : c.pyExc = Tables.Exceptions.builtins)
-    (bases : List Base) (hq : unqualifiedBases c bases = true) : isException c bases = PySem.isException c bases :=
-  exception_eq_of_tables c bases (basesOk_generated c hp hy bases hq)
+/-- **exception_eq** (full) — with the tables generated from this tree and this interpreter, a class is documented as
+an exception exactly when CPython makes it a subclass of `BaseException`, for every base list (external names written
+bare or as `builtins.X`). -/
+theorem exception_eq (c : Ctx) (hp : c.pdExc = Tables.Exceptions.pydoctor) (hy : c.pyExc = Tables.Exceptions.builtins)
+    (bases : List Base) : isException c bases = PySem.isException c bases :=
+  exception_eq_of_tables c bases (basesOk_generated c hp hy bases)
 
 /-- `_STD_LIB_EXCEPTIONS` as it was before 769cae3 (the Python 3.8 list) — pre-fix, for the record -/
 def pydoctorExcOld : List Name :=
@@ -1562,12 +1555,17 @@ theorem exception_eq_counterexample_old :
     PySem.isException { realCtx false with pdExc := pydoctorExcOld } [.ext "ExceptionGroup".toList] = true ∧
     isException (realCtx false) [.ext "ExceptionGroup".toList] = true := by decide +kernel
 
-/-- `import builtins; class E(builtins.ValueError)`: `is_exception` compares the expanded name `builtins.ValueError` with
-the table of bare names — documented as a plain class, an exception class for CPython -/
-theorem exception_eq_qualified_counterexample :
-    isException (realCtx false) [.ext "builtins.ValueError".toList] = false ∧
+/-- `is_exception` as it was before 78b09d3: the expanded base name was compared as written — pre-fix, for the record -/
+def isExceptionOld (c : Ctx) (bases : List Base) : Bool :=
+  (extNames c.env (c.env.length + 1) bases).any (fun n => c.pdExc.contains n)
+
+/-- historical (before 78b09d3): `import builtins; class E(builtins.ValueError)` was a plain class for pydoctor and an
+exception class for CPython; now both say exception and the class statement is inside the subset -/
+theorem exception_eq_qualified_counterexample_old :
+    isExceptionOld (realCtx false) [.ext "builtins.ValueError".toList] = false ∧
+    isException (realCtx false) [.ext "builtins.ValueError".toList] = true ∧
     PySem.isException (realCtx false) [.ext "builtins.ValueError".toList] = true ∧
-    inSubset (realCtx false) [.classDef "K".toList [.ext "builtins.ValueError".toList] [] none []] = false := by decide +kernel
+    inSubset (realCtx false) [.classDef "K".toList [.ext "builtins.ValueError".toList] [] none []] = true := by decide +kernel
 
 example : basesOk (realCtx false) [.ext "ExceptionGroup".toList, .ext "object".toList] = true := by decide +kernel
 example : basesOk (realCtx false) [.ext "ValueError".toList] = true := by decide +kernel
